@@ -188,6 +188,24 @@ func c18Ops() []c18op {
 			a, b, c := priv(), priv(), priv()
 			return dig(tensor.Add(a, b, tensor.WithIncr(c))) + dig(a, nil) + dig(b, nil) + dig(c, nil)
 		}},
+		// calls that are REFUSED after their options were parsed (each refusal path hands the pooled option record back on its
+		// own), followed by an operation whose options must still be its own
+		{"private:RefusedOptions+AddIncr", func(s *c18shared) string {
+			a, b, c := priv(), priv(), priv()
+			ints := tensor.New(tensor.WithShape(2, 2), tensor.WithBacking([]int{0, 0, 0, 0}))
+			small := tensor.New(tensor.WithShape(2), tensor.WithBacking([]float64{0, 0}))
+			at, _ := a.SafeT()
+			out := ""
+			_, e := tensor.Dot(at, b, tensor.WithIncr(ints))
+			out += fmt.Sprint(e != nil)
+			_, e = tensor.Dot(at, b, tensor.WithReuse(ints))
+			out += fmt.Sprint(e != nil)
+			_, e = tensor.Add(a, b, tensor.WithReuse(small))
+			out += fmt.Sprint(e != nil)
+			_, e = tensor.MatMul(at, b, tensor.WithIncr(small))
+			out += fmt.Sprint(e != nil)
+			return out + dig(tensor.Add(a, b, tensor.WithIncr(c))) + dig(a, nil) + dig(b, nil) + dig(c, nil)
+		}},
 		{"private:LtSame", func(s *c18shared) string {
 			a, b := priv(), priv()
 			return dig(tensor.Lt(a, b, tensor.AsSameType())) + dig(a, nil) + dig(b, nil)
@@ -284,7 +302,7 @@ func runC18(r *core.Run) {
 	var optOps []int
 	for i, op := range ops {
 		switch op.name {
-		case "private:AddReuseReshaped", "private:AddSafe", "private:AddUnsafe", "private:AddIncr", "private:LtSame":
+		case "private:AddReuseReshaped", "private:AddSafe", "private:AddUnsafe", "private:AddIncr", "private:LtSame", "private:RefusedOptions+AddIncr":
 			optOps = append(optOps, i)
 		}
 	}
